@@ -298,8 +298,19 @@ def run_reconnect_case(seed, T):
                 # the burst that ends the lifetime: data, then EOF / error / SO_ERROR, in ONE read burst
                 k = take(st_, rng.choice(['hdr', 'hdr', 'mid', 'any', 'all']))
                 rs = chunks_of(st_, k)
-                end = rng.choice(['eof', 'eof', 'err', 'soerr'])
-                if end == 'eof':
+                end = rng.choice(['eof', 'eof', 'err', 'soerr', 'bad', 'bad'])
+                if end == 'bad':
+                    # whole frames and then a malformed one in the SAME read burst: the connection is dropped from
+                    # inside the parse loop, with frames of this burst already consumed
+                    nxt = [b for b in st_['bounds'] if b >= st_['fed']]
+                    if nxt:
+                        b = rng.choice(nxt)
+                        rs = [('chunk', st_['data'][st_['fed'] - k:b] + bad_frame(rng)[1], False)] if rng.random() < 0.7 else \
+                            rs + chunks_of(st_, b - st_['fed']) + [('chunk', bad_frame(rng)[1], False)]
+                        st_['fed'] = max(st_['fed'], b)
+                    else:
+                        rs.append(('chunk', bad_frame(rng)[1], False))
+                elif end == 'eof':
                     rs.append(('chunk', b'', False))
                 elif end == 'err':
                     rs.append(('err',))
